@@ -171,6 +171,8 @@ func (pd *perRawBitData) appendBitString(bytes []byte, bitsLength uint64, extens
 
 	if ub > 65535 {
 		sizeRange = -1
+		// X.691 10.9.3.5-10.9.3.8: an unconstrained length determinant carries the length itself, not length-lb
+		lb = 0
 	}
 	sizes := (bitsLength + 7) >> 3
 	shift := (8 - bitsLength&0x7)
@@ -266,6 +268,8 @@ func (pd *perRawBitData) appendOctetString(bytes []byte, extensive bool, lowerBo
 
 	if ub > 65535 {
 		sizeRange = -1
+		// X.691 10.9.3.5-10.9.3.8: an unconstrained length determinant carries the length itself, not length-lb
+		lb = 0
 	}
 
 	if sizeRange == 1 {
